@@ -92,8 +92,11 @@ type UserType struct {
 	Reference   string  `json:"reference,omitempty"`
 	// ErrorNameAttr is the attribute carrying the error name (struct:error:name) when the
 	// type is shared by several errors.
-	ErrorNameAttr string              `json:"error_name_attr,omitempty"`
-	Meta          map[string][]string `json:"meta,omitempty"`
+	ErrorNameAttr string `json:"error_name_attr,omitempty"`
+	// ErrorOnly marks a type generated to serve as a custom error type only (runtime profiles never reuse
+	// it as payload/result: sharing a type between errors and payloads is a listed C01 trigger).
+	ErrorOnly bool                `json:"error_only,omitempty"`
+	Meta      map[string][]string `json:"meta,omitempty"`
 }
 
 type View struct {
